@@ -138,7 +138,9 @@ pub fn watchdog_start(path: &str, secs: u64, sync: bool) {
         if now_ms().saturating_sub(last) > secs * 1000 {
             let desc = WD_DESC.lock().map(|d| d.clone()).unwrap_or_default();
             let path = WD_PATH.lock().map(|d| d.clone()).unwrap_or_default();
-            let _ = std::fs::write(&path, format!("{}\n", desc));
+            if !desc.is_empty() {
+                let _ = std::fs::write(&path, format!("{}\n", desc));
+            }
             std::process::exit(3);
         }
     });
@@ -149,12 +151,14 @@ pub fn heartbeat<F: FnOnce() -> String>(desc: F) {
         return;
     }
     WD_BEAT.store(now_ms(), Ordering::SeqCst);
-    let d = desc();
+    // the description is only built in --sync mode (it can be long: the whole history); after a hang or crash in
+    // the normal mode the driver is re-run with --sync to learn which call it was
     if WD_SYNC.load(Ordering::Relaxed) {
+        let d = desc();
         let path = WD_PATH.lock().map(|d| d.clone()).unwrap_or_default();
         let _ = std::fs::write(&path, format!("{}\n", d));
-    }
-    if let Ok(mut g) = WD_DESC.lock() {
-        *g = d;
+        if let Ok(mut g) = WD_DESC.lock() {
+            *g = d;
+        }
     }
 }
